@@ -1,9 +1,15 @@
 CONSTANTS
   SectorSize = 4
   TableSize = 4
+  HetSize = 8
   FlagFix = FALSE
+  UseHetBet = FALSE
+  BetFix = FALSE
   NameHash <- MCNameHash
   LibFileKey <- MCFileKey
+  Het8 <- MCHet8
+  BetL3 <- MCBetL3
+  BetOaat <- MCBetOaat
 INIT MCInit
 NEXT MCNextOnce
 INVARIANT LayoutAgreement
@@ -16,4 +22,7 @@ INVARIANT KeyAgreement
 INVARIANT ReadBack
 INVARIANT ReadBackNeverNotFound
 INVARIANT AbsentNotFound
+INVARIANT HetBetAnswersOwn
+INVARIANT BetFixAnswers
+INVARIANT AsIsAlwaysFallsBack
 CHECK_DEADLOCK FALSE
